@@ -196,7 +196,7 @@ def run(rep, tier, seed):
     nx = 0
     if M is not None:
         M.TAG = "C05_%s_%d" % ("r" if fw.REPO == "/repo" else "m", seed)
-        model_stats, nx = M.correspondence(rep, rng, tier, harness, driver, accepted)
+        model_stats, nx = M.correspondence(rep, rng, tier, harness, driver, accepted, cases, res)
     for f in failures:
         rep.violation({"property": PROP, "kind": "proof obligation no longer checks", "detail": f}, no_failing_input=True)
     sample = [{"kind": c["kind"], "text": c["text"], "printed": r.get("printed")} for c, r in accepted[:2] + accepted[-2:]]
